@@ -270,6 +270,10 @@ def _stack_col(kind, vals):
         return np.array([np.datetime64(18000 + v, 'D') for v in vals], dtype='M8[D]')
     if kind == 'M8[m]':
         return np.array([np.datetime64(18000 * 1440 + 61 * v + 7, 'm') for v in vals], dtype='M8[m]')
+    if kind == 'M8[ns]':
+        return np.array([np.datetime64(1577836800000000001 + 1000003 * v, 'ns') for v in vals], dtype='M8[ns]')
+    if kind == 'int64big':   # not representable as float64
+        return np.array([2 ** 53 + 1 + 2 * v for v in vals], dtype=np.int64)
     return np.array([v * 100003 for v in vals], dtype=np.int64)
 
 
@@ -283,13 +287,25 @@ def stack_cases(draw):
     # one dtype for all columns half of the time, otherwise a dtype per column (narrow before wide within a kind too)
     if draw(st.booleans()):
         kinds = [draw(st.sampled_from(['int64', 'float64']))] * len(cols)
+        by_group = None
     else:
-        fam = draw(st.sampled_from([('<U1', '<U6'), ('float32', 'float64'), ('int8', 'int64'), ('M8[D]', 'M8[m]'), STACK_KINDS]))
-        kinds = [draw(st.sampled_from(fam)) for _ in cols]
+        fam = draw(st.sampled_from([('<U1', '<U6'), ('float32', 'float64'), ('int8', 'int64'), ('M8[D]', 'M8[m]'), STACK_KINDS, 'by_group']))
+        by_group = None
+        if fam == 'by_group':
+            # one dtype per label of the depth that stays on the columns: every stacked column is homogeneous, the frame as a whole is
+            # not (large ints beside floats, nanosecond datetimes beside numbers: a whole-frame array could not hold the cells)
+            by_group = draw(st.lists(st.sampled_from(['int64big', 'float64', 'M8[ns]', '<U6', 'int64big']), min_size=4, max_size=4))
+            kinds = ['int64'] * len(cols)
+        else:
+            kinds = [draw(st.sampled_from(fam)) for _ in cols]
     # ragged columns (some (outer, inner) pairs absent) leave cells to fill; the fill value may be of another type
     keep = [j for j in range(len(cols)) if draw(st.integers(0, 3)) > 0] or [0]
     fill = draw(st.sampled_from(['default', -1, 0.5, 'zz', 'default']))
     dl = draw(st.sampled_from([1, 0, 1]))   # the depth that is moved
+    if by_group is not None:
+        # (no ragged columns here: a fill value beside a large int resolves to float64, which is C07's recorded finding, not this property's)
+        kinds = [by_group['xyz'.index(a_) if dl == 1 else b_] for a_, b_ in cols]
+        keep = list(range(len(cols)))
     cols = [cols[j] for j in keep]
     kinds = [kinds[j] for j in keep]
     data = draw(st.lists(st.integers(0, 40), min_size=n * len(cols), max_size=n * len(cols)))
